@@ -21,6 +21,7 @@ func Str(label string) string
 func Bytes(label string, max int) []byte
 func BytesN(label string, n int) []byte
 func OpaqueBytes(n int) []byte
+func Defined(pkgPath, typeName string, v int64) bool
 func Choose(label string, n int) int
 func Assume(c bool)
 func Assert(id string, c bool)
